@@ -218,6 +218,12 @@ package environment
 //@   property C01
 //@   closedworld
 //@   requires state == "ERROR" || state == "DONE"
+// DONE is terminal: the state is never forced from DONE to ERROR (a request that was queued behind a teardown, or a timer
+// left armed, finds DONE, has its GO_ERROR refused and would otherwise "repair" that by forcing ERROR)
+//@   ghostvar asked bool = false
+//@   ghostvar cur string = ""
+//@   on aftercall (*fsm.FSM).Current : cur = result ; asked = true
+//@   on call (*fsm.FSM).SetState : assert arg1 == "ERROR" ==> asked && cur != "DONE"
 
 // Every caller of setState (closed world, see 'closedworld' above); the only non-literal argument is the watcher's
 // wfState.String(), which is "ERROR" because the watcher arms the timer only under wfState == ERROR and never assigns
